@@ -306,6 +306,9 @@ def residue(cfg):
             A.append(mk('Emit', ns=ns, toKind='one', to=[s], skipKind='none',
                         skip=[], ev='msg', data='v1', cb='c1'))
             A.append(mk('EnterRoom', sid=s, room='r1', ns=ns, live=True))
+            # ... also for a client that is gone already (a handler that was
+            # still running for it): refused, nothing is left behind
+            A.append(mk('EnterRoom', sid=s, room='r1', ns=ns, live=False))
             A.append(mk('SaveSession', sid=s, ns=ns, val='w1'))
         A.append(mk('Arm', ns=ns))
     return A
@@ -412,7 +415,8 @@ CONFIGS['hostile_quick'] = dict(CONFIGS['hostile'], transports=['t1', 't2'],
                                 raw=['empty', 'type9', 'connerr', 'badjson',
                                      'dictpayload', 'emptylist', 'numpayload',
                                      'longid', 'deepjson', 'bytes', 'count11',
-                                     'strpayload', 'intevent', 'acknum',
+                                     'strpayload', 'intevent', 'acknum', 'longnum',
+                                     'longnumack', 'longnumconn',
                                      'evunknownns', 'ackunknownns',
                                      'bytesevent', 'bytesdisc', 'bytesconn'])
 
